@@ -466,9 +466,24 @@ def p_dataReceived(s, P, data):
     return None
 
 
+def incomplete_term(buf):
+    """the reference deframer needs more octets before it can say anything about the head of `buf`"""
+    b = SBytes.of(buf)
+    marker_ok = z3.And([b.at(i) == 255 for i in range(16)])
+    length = b.be_int(16, 2)
+    return z3.Or(b.len < wire.HDR_LEN,
+                 z3.And(marker_ok, length >= wire.HDR_LEN, length <= wire.MAX_LEN, b.len < length))
+
+
 def spec_dataReceived(c, P, data):
     sp = wrap(p_dataReceived)(c, P, data)
     sp.loop_abstract = True          # effects and the touched fields are those of the loop: not compared
+
+    def drained():
+        # C04: when dataReceived returns, nothing that the deframer can already decide is left waiting in the buffer —
+        # however small the chunk that completed it was (unless the agent closed the connection itself)
+        return z3.Or(Bt(P.f['disconnected']), incomplete_term(P.f['_receive_buffer']))
+    sp.post = list(sp.post) + [('C04-buffer-drained', drained)]
     return sp
 
 
